@@ -84,6 +84,7 @@ Definition obs_cut (maxsz : N) (dec : list N -> option (list N)) (t : table) (c 
 Definition C24_run (c : sx) : sx :=
   match c with
   | SL (SI 9%Z :: _) => SL [SI 9%Z]     (* freezer-level case: Go oracle only, no model *)
+  | SL (SI 8%Z :: _) => SL [SI 8%Z]     (* torn-metadata case: Go oracle only, no model *)
   | SL [sn_; mx; SL ops; SL cuts; SL pairs] =>
       match sx_N mx, opt_map sx_op ops, opt_map sx_cut cuts, opt_map sx_pair pairs with
       | Some maxsz, Some ops, Some cuts, Some cd =>
